@@ -104,7 +104,66 @@ fn overlay_chain_history(s: &mut Scenario, r: &mut Rng) {
     s.probes.clear();
 }
 
+/// A value-file free list spanning several pages: a few dozen multi-page values are written and
+/// then all replaced in one commit (more than 1022 pages released at once), followed by reopen /
+/// small commit / reopen / large commit / ... so that the list is read back from disk, popped
+/// across a page boundary, rewritten and read back again.
+fn freelist_history(s: &mut Scenario, r: &mut Rng) -> usize {
+    let pages_of = |len: u32| (len as u64 + 4091) / 4092;
+    let want = r.range(1100, 2300);
+    let mut keys: Vec<Key> = Vec::new();
+    let mut lens: Vec<u32> = Vec::new();
+    let mut total = 0u64;
+    while total < want { let k = r.bytes32(); if keys.contains(&k) { continue; } let l = *r.pick(&[40_000u32, 61_380, 65_536, 100_000, 100_000, 130_000]); total += pages_of(l); keys.push(k); lens.push(l); }
+    let mut idx: Vec<usize> = (0..keys.len()).collect();
+    idx.sort_by_key(|i| keys[*i]);
+    let mut stamp = 900_000u32;
+    let mut batch = |sel: &[usize], len_of: &dyn Fn(usize) -> Option<u32>| -> Batch { Batch { items: sel.iter().map(|i| { stamp += 1; (K(keys[*i]), match len_of(*i) { Some(len) => Act::Write(Some(VSpec { len, stamp })), None => Act::Write(None) }) }).collect(), ..Default::default() } };
+    let mut steps = Vec::new();
+    // fill (one or two commits), then release everything at once
+    if r.chance(1, 2) { steps.push(Step::Commit { batch: batch(&idx, &|i| Some(lens[i])), nonblocking: false }); }
+    else { let h = idx.len() / 2; let (a, b): (Vec<usize>, Vec<usize>) = (idx.iter().cloned().step_by(2).collect(), idx.iter().cloned().skip(1).step_by(2).collect()); let _ = h; steps.push(Step::Commit { batch: batch(&a, &|i| Some(lens[i])), nonblocking: false }); steps.push(Step::Commit { batch: batch(&b, &|i| Some(lens[i])), nonblocking: false }); }
+    let small = *r.pick(&[4u32, 200, 1400]);
+    match r.below(3) {
+        0 => steps.push(Step::Commit { batch: batch(&idx, &|_| Some(small)), nonblocking: false }),
+        1 => steps.push(Step::Commit { batch: batch(&idx, &|i| Some(lens[(i + 1) % lens.len()])), nonblocking: false }),
+        _ => steps.push(Step::Commit { batch: batch(&idx, &|_| None), nonblocking: false }),
+    }
+    steps.push(Step::Reopen { opts: regen_opts(r, &s.opts, true) });
+    let first_after = steps.len();
+    // a small commit that pops only a few pages
+    let few: Vec<usize> = { let n = r.range(1, 3) as usize; let mut v: Vec<usize> = idx.iter().cloned().skip(r.usize(idx.len().max(1))).take(n).collect(); v.sort_by_key(|i| keys[*i]); v };
+    steps.push(Step::Commit { batch: batch(&few, &|i| Some(lens[i] / 2 + 5000)), nonblocking: false });
+    steps.push(Step::Reopen { opts: regen_opts(r, &s.opts, true) });
+    // a large one that pops across the boundary between two free-list pages
+    steps.push(Step::Commit { batch: batch(&idx, &|i| Some(lens[i])), nonblocking: false });
+    if r.chance(1, 2) { steps.push(Step::Reopen { opts: regen_opts(r, &s.opts, true) }); }
+    let part: Vec<usize> = idx.iter().cloned().filter(|i| i % 3 != 0).collect();
+    steps.push(Step::Commit { batch: batch(&part, &|_| Some(small)), nonblocking: false });
+    steps.push(Step::Reopen { opts: regen_opts(r, &s.opts, true) });
+    steps.push(Step::Commit { batch: batch(&idx, &|i| if i % 2 == 0 { Some(lens[i]) } else { None }), nonblocking: false });
+    // thousands of I/O events per commit: keep the task count moderate (run time, not coverage)
+    s.opts.commit_concurrency = s.opts.commit_concurrency.min(8);
+    for st in steps.iter_mut() { if let Step::Reopen { opts } = st { opts.commit_concurrency = opts.commit_concurrency.min(8); } }
+    s.steps = steps;
+    s.probes.truncate(3);
+    first_after + *r.pick(&[0usize, 0, 2, 2, 4])
+}
+
 pub fn make(prop: &str, tier: Tier, seed: u64) -> Scenario {
+    let mut s = make_inner(prop, tier, seed);
+    // separate stream: what a seed generated before this family existed is otherwise unchanged
+    let mut fr = Rng::new(seed ^ 0xF4EE_1157);
+    let applies = matches!(prop, "C01" | "C10" | "C16" | "C17" | "C19" | "C03" | "C04") && s.extra.get("kind").is_none() && s.extra.get("c19_cycles").is_none();
+    if applies && fr.chance(1, 14) {
+        let target = freelist_history(&mut s, &mut fr);
+        let target = target.min(s.steps.len() - 1);
+        if let Some(pl) = s.extra.get_mut("plan") { pl["target"] = json!(target); }
+    }
+    s
+}
+
+fn make_inner(prop: &str, tier: Tier, seed: u64) -> Scenario {
     let mut r = Rng::new(seed ^ 0xA5A5);
     match prop {
         "C01" => {
@@ -277,7 +336,7 @@ pub fn make(prop: &str, tier: Tier, seed: u64) -> Scenario {
         }
         "C16" | "C19" if r.chance(1, 4) => {
             // "...and after any recovered crash": the decoder also runs on every recovered image
-            let mut s = make(if r.chance(1, 2) { "C03" } else { "C04" }, tier, seed);
+            let mut s = make_inner(if r.chance(1, 2) { "C03" } else { "C04" }, tier, seed);
             s.property = prop.to_string();
             s.checks.rules = false;
             s
